@@ -27,7 +27,7 @@ RULE = ("Hypothesis treebank pools (1..5 trees from 1..3 shapes, <=7/10 tokens, 
 ASSUMPTIONS = ["labels carry no parentheses/whitespace and no trailing digit (RCG); words are disjoint from labels when lexical rules are embedded",
                "the grammar in memory is produced by the repository's own extract/binarize (their correctness is C06-C08)"]
 
-WORDS = ["Haus", "haus", "der", "Der", "läuft", "Über", "x", "a-b", "3D", "%"]
+WORDS = ["Haus", "haus", "der", "Der", "läuft", "Über", "x", "a-b", "3D", "%", "#", "#x", "#hashtag"]
 WORDS_LATIN1 = WORDS
 
 
